@@ -150,6 +150,7 @@ type node struct {
 	stickyH   int64
 	stickyInc int
 	touched   bool
+	lock      lockObs // last observed lock (white-box lock monitor)
 }
 
 type crashImage struct {
@@ -240,6 +241,7 @@ type config struct {
 	SkewMaxUs    int64
 	ReplayOld    bool // re-deliver arbitrarily old messages
 	SlowPm       int  // per-mille of deliveries that take seconds instead of milliseconds
+	DropPrecommitPm int // per-mille of precommit votes of rounds 0-2 that are lost (locks without commits)
 }
 
 type sim struct {
